@@ -74,7 +74,7 @@ func numberOfSharesNeeded(firstShare Share) (sharesUsed int, err error) {
 	if firstShare.IsCompactShare() {
 		return CompactSharesNeeded(sequenceLen), nil
 	}
-	return SparseSharesNeeded(sequenceLen), nil
+	return SparseSharesNeededWithSigner(sequenceLen, firstShare.Version() == ShareVersionOne), nil
 }
 
 // CompactSharesNeeded returns the number of compact shares needed to store a
@@ -106,16 +106,28 @@ func CompactSharesNeeded(sequenceLen uint32) (sharesNeeded int) {
 // SparseSharesNeeded returns the number of shares needed to store a sequence of
 // length sequenceLen.
 func SparseSharesNeeded(sequenceLen uint32) (sharesNeeded int) {
+	return SparseSharesNeededWithSigner(sequenceLen, false)
+}
+
+// SparseSharesNeededWithSigner returns the number of shares needed to store a
+// sequence of length sequenceLen. If containsSigner is true (share version 1)
+// the first share additionally holds the signer.
+func SparseSharesNeededWithSigner(sequenceLen uint32, containsSigner bool) (sharesNeeded int) {
 	if sequenceLen == 0 {
 		return 0
 	}
 
-	if sequenceLen < FirstSparseShareContentSize {
+	firstShareContentSize := uint32(FirstSparseShareContentSize)
+	if containsSigner {
+		firstShareContentSize -= SignerSize
+	}
+
+	if sequenceLen < firstShareContentSize {
 		return 1
 	}
 
 	// Calculate remaining bytes after first share
-	remainingBytes := sequenceLen - FirstSparseShareContentSize
+	remainingBytes := sequenceLen - firstShareContentSize
 
 	// Calculate number of continuation shares needed
 	continuationShares := remainingBytes / ContinuationSparseShareContentSize
